@@ -71,7 +71,7 @@ fn main() {
         Some("batch") => {
             let seed: u64 = args[2].parse().unwrap();
             let n: usize = args[3].parse().unwrap();
-            props::c03::print_batch(seed, n);
+            props::c03::print_batch(seed, n, args.get(4).map(|s| s == "reverse").unwrap_or(false));
         }
         Some("prop") => {
             // prop <id> <quick|thorough> <seed> [replay.json]
